@@ -560,25 +560,35 @@ def generate(repo, pid='C01', extra_imports=(), extra_opens=(), extra=None, skip
                 fs = [x for x in fs if x in role]
                 cur = tgt
                 tgt = None
-            elif isinstance(st, ast.Assign) and isinstance(st.targets[0], ast.Name) and isinstance(st.value, ast.Call):
-                f_ = u(st.value.func)
-                arg0 = u(st.value.args[0]) if st.value.args else None
-                if arg0 != cur:
-                    raise Untranslatable(f'{u(st)} does not continue the pipeline variable {cur}')
-                if f_ == 'fft.fft2':
-                    push('.fft')
-                elif f_ == 'fft.ifft2':
-                    if len(st.value.args) != 1 or st.value.keywords:
-                        raise Untranslatable('ifft2 with extra arguments')
-                    push('.ifft')
-                else:
-                    raise Untranslatable(f'call {f_} in the pipeline')
-                cur = st.targets[0].id
-                continue
-            elif isinstance(st, ast.Assign) and isinstance(st.targets[0], ast.Name) and isinstance(st.value, ast.Subscript):
-                if u(st.value.value) != cur or u(st.value.slice).replace(' ', '') not in (':M,:N', '(:M,:N)', '0:M,0:N', '(0:M,0:N)'):
-                    raise Untranslatable(f'crop statement {u(st)}')
-                push('.crop')
+            elif isinstance(st, ast.Assign) and isinstance(st.targets[0], ast.Name) and isinstance(st.value, (ast.Call, ast.Subscript)):
+                # `x = fft.fft2(cur, ...)`, `x = fft.ifft2(cur)`, `x = cur[:M, :N]`, or these nested in one expression
+                # (`fft.ifft2(cur)[:M, :N]`): the stages are pushed innermost first
+                def apply_expr(e):
+                    if isinstance(e, ast.Name):
+                        if e.id != cur:
+                            raise Untranslatable(f'{u(st)} does not continue the pipeline variable {cur}')
+                        return
+                    if isinstance(e, ast.Subscript):
+                        if u(e.slice).replace(' ', '') not in (':M,:N', '(:M,:N)', '0:M,0:N', '(0:M,0:N)'):
+                            raise Untranslatable(f'crop statement {u(st)}')
+                        apply_expr(e.value)
+                        push('.crop')
+                        return
+                    if isinstance(e, ast.Call) and e.args:
+                        f_ = u(e.func)
+                        if f_ == 'fft.fft2':
+                            apply_expr(e.args[0])
+                            push('.fft')
+                            return
+                        if f_ == 'fft.ifft2':
+                            if len(e.args) != 1 or e.keywords:
+                                raise Untranslatable('ifft2 with extra arguments')
+                            apply_expr(e.args[0])
+                            push('.ifft')
+                            return
+                        raise Untranslatable(f'call {f_} in the pipeline')
+                    raise Untranslatable(f'expression {u(e)[:60]} in the pipeline')
+                apply_expr(st.value)
                 cur = st.targets[0].id
                 continue
             else:
@@ -597,8 +607,13 @@ def generate(repo, pid='C01', extra_imports=(), extra_opens=(), extra=None, skip
                 raise Untranslatable(f'stage {r} uses factors {sorted(used[r])}')
         ic = get_def(ft, 'ChirpZTransformExecutor.iczt2')
         body = [u(x) for x in ic.body if not (isinstance(x, ast.Expr) and isinstance(x.value, ast.Constant))]
+        # `x = <expr>; return x` and `return <expr>` are the same body
+        if len(ic.body) >= 2 and isinstance(ic.body[-1], ast.Return) and isinstance(ic.body[-1].value, ast.Name) \
+                and isinstance(ic.body[-2], ast.Assign) and len(ic.body[-2].targets) == 1 \
+                and u(ic.body[-2].targets[0]) == ic.body[-1].value.id:
+            body = body[:-2] + ['return ' + u(ic.body[-2].value)]
         if body != ['if np.iscomplexobj(ary):\n    ary = np.conj(ary)',
-                    'xformed = np.conj(self.czt2(ary, Q, samples_out, shift))', 'return xformed']:
+                    'return np.conj(self.czt2(ary, Q, samples_out, shift))']:
             raise Untranslatable(f'iczt2 body not recognised: {body}')
         return f'def cztStagesGen : List CztStage := [{", ".join(stages)}]'
     g.item('czt.pipeline', 'prysm/fttools.py:ChirpZTransformExecutor.czt2/iczt2',
